@@ -85,6 +85,9 @@ def compare_frames(table, dfa, dfb, scale, exact=False, ptol=1e-8, ttol=1e-6, mr
             d = np.abs(a - b)
             if c in P_COLS:
                 tol = ptol * np.maximum(1.0, np.maximum(np.abs(a), np.abs(b)))
+                if c == "dp_friction_loss_bar":
+                    # reported from the last linearisation (lags the solution by one Newton step); 2.1e-8 bar seen on a value of 1e-7
+                    tol = np.maximum(tol, 1e-7 + 1e-6 * np.maximum(np.abs(a), np.abs(b)))
             elif c in T_COLS:
                 tol = np.full_like(a, ttol)
             elif "mdot" in c:
